@@ -173,7 +173,18 @@ type c09Range struct{ start, end []byte }
 // (keys in the cluster's key space: raw, or memcomparable-encoded in txn mode).
 type c09Snap struct {
 	seq  int
-	regs []*router.Region // sorted by start key, gap free
+	regs []*router.Region // sorted by start key, gap free; Leader = what PD believes (may lag, see pdLeader)
+	// truth: region id -> peer id of the peer that really leads the region, recorded only where
+	// PD's belief differs (PD's leader info lags behind raft)
+	truth map[uint64]uint64
+}
+
+// leaderOf: the peer that really leads r in this snapshot.
+func (s *c09Snap) leaderOf(r *router.Region) uint64 {
+	if id, ok := s.truth[r.Meta.Id]; ok {
+		return id
+	}
+	return r.Leader.GetId()
 }
 
 func (s *c09Snap) find(key []byte) *router.Region {
@@ -253,6 +264,9 @@ func c09CloneRegion(r *router.Region) *router.Region {
 	if r.Leader != nil {
 		out.Leader = proto.Clone(r.Leader).(*metapb.Peer)
 	}
+	for _, dp := range r.DownPeers {
+		out.DownPeers = append(out.DownPeers, proto.Clone(dp).(*metapb.Peer))
+	}
 	return out
 }
 
@@ -270,6 +284,13 @@ type c09World struct {
 	cluster  *mocktikv.Cluster
 	storeIDs []uint64
 	stopped  map[uint64]bool
+	// peer / store health family (c09_peers.go); all empty unless that family's changes are used
+	dead      map[uint64]string // decommissioned stores: "tombstone" | "removed" (never come back)
+	deadBirth map[uint64]bool   // stores that were already dead when the current cache was created
+	downMarks map[uint64]bool   // peers PD reports in DownPeers
+	pdLeader  map[uint64]uint64 // region id -> peer id PD still names as leader although raft moved on
+	peerUp    sync.Map          // peer id -> true: some answer handed to the current cache listed the peer as available
+	nWitness  int               // witness switches so far
 
 	// topology changes take topoMu.Lock; handling of one RPC takes RLock, so a
 	// store never answers from a half-applied change.
@@ -310,6 +331,7 @@ type c09World struct {
 func c09NewWorld(r *vrep.Report, desc string, rng *rand.Rand, mvcc mocktikv.MVCCStore, txn bool, nStores int) *c09World {
 	c09Setup()
 	w := &c09World{r: r, desc: desc, txn: txn, mvcc: mvcc, stopped: map[uint64]bool{},
+		dead: map[uint64]string{}, deadBirth: map[uint64]bool{}, downMarks: map[uint64]bool{}, pdLeader: map[uint64]uint64{},
 		registry: map[RegionVerID]c09Range{}, layouts: map[string]struct{}{}, keys: c09Keys, cands: c09SplitCands, forceSnap: -1}
 	var mode apicodec.Mode = apicodec.ModeRaw
 	if txn {
@@ -375,10 +397,35 @@ func (w *c09World) violate(sig, msg string, extra map[string]any) {
 
 // snapshotLocked records the current topology (caller holds topoMu.Lock).
 func (w *c09World) snapshotLocked() {
+	if w.nWitness > 0 {
+		w.saneWitnessesLocked()
+	}
 	regs := w.cluster.ScanRegions(nil, nil, 0)
+	var truth map[uint64]uint64
+	for _, r := range regs {
+		pid, lag := w.pdLeader[r.Meta.Id]
+		if !lag {
+			continue
+		}
+		var believed *metapb.Peer
+		for _, p := range r.Meta.Peers {
+			if p.Id == pid {
+				believed = p
+			}
+		}
+		if believed == nil || pid == r.Leader.GetId() {
+			delete(w.pdLeader, r.Meta.Id) // the believed leader left the region, or raft came back to it
+			continue
+		}
+		if truth == nil {
+			truth = map[uint64]uint64{}
+		}
+		truth[r.Meta.Id] = r.Leader.GetId()
+		r.Leader = proto.Clone(believed).(*metapb.Peer)
+	}
 	w.mu.Lock()
 	defer w.mu.Unlock()
-	s := &c09Snap{seq: len(w.snaps), regs: regs}
+	s := &c09Snap{seq: len(w.snaps), regs: regs, truth: truth}
 	w.snaps = append(w.snaps, s)
 	for _, r := range regs {
 		ep := r.Meta.GetRegionEpoch()
@@ -421,7 +468,7 @@ func (w *c09World) setEpoch(id, confVer, ver uint64) {
 func (w *c09World) upStores() []uint64 {
 	var up []uint64
 	for _, s := range w.storeIDs {
-		if !w.stopped[s] {
+		if !w.stopped[s] && w.dead[s] == "" {
 			up = append(up, s)
 		}
 	}
@@ -469,7 +516,7 @@ func (w *c09World) change(rng *rand.Rand, kind int) string {
 		peerIDs := w.cluster.AllocIDs(len(c.r.Meta.Peers))
 		li := 0
 		for i, p := range c.r.Meta.Peers {
-			if p.Id == c.r.Leader.GetId() {
+			if p.Id == cur.leaderOf(c.r) {
 				li = i
 			}
 		}
@@ -530,7 +577,7 @@ func (w *c09World) change(rng *rand.Rand, kind int) string {
 		r := cs[rng.Intn(len(cs))]
 		var others []*metapb.Peer
 		for _, p := range r.Meta.Peers {
-			if p.Id != r.Leader.GetId() {
+			if p.Id != cur.leaderOf(r) {
 				others = append(others, p)
 			}
 		}
@@ -549,7 +596,7 @@ func (w *c09World) change(rng *rand.Rand, kind int) string {
 				continue
 			}
 			for _, s := range w.storeIDs {
-				has := false
+				has := w.dead[s] != "" // no new peer on a decommissioned store
 				for _, p := range r.Meta.Peers {
 					if p.StoreId == s {
 						has = true
@@ -583,7 +630,7 @@ func (w *c09World) change(rng *rand.Rand, kind int) string {
 		r := cs[rng.Intn(len(cs))]
 		p := r.Meta.Peers[rng.Intn(len(r.Meta.Peers))]
 		w.cluster.RemovePeer(r.Meta.Id, p.Id)
-		if p.Id == r.Leader.GetId() {
+		if p.Id == cur.leaderOf(r) {
 			var rest []*metapb.Peer
 			for _, q := range r.Meta.Peers {
 				if q.Id != p.Id {
@@ -605,9 +652,9 @@ func (w *c09World) change(rng *rand.Rand, kind int) string {
 		moved := 0
 		if rng.Intn(2) == 0 { // raft elects another leader among the peers on running stores
 			for _, r := range cur.regs {
-				if r.Leader != nil && r.Leader.StoreId == s {
+				if w.leaderStore(cur, r) == s {
 					for _, p := range r.Meta.Peers {
-						if !w.stopped[p.StoreId] {
+						if !w.stopped[p.StoreId] && w.dead[p.StoreId] == "" {
 							w.cluster.ChangeLeader(r.Meta.Id, p.Id)
 							moved++
 							break
@@ -643,6 +690,17 @@ func (w *c09World) change(rng *rand.Rand, kind int) string {
 	return desc
 }
 
+// leaderStore: the store of the peer that really leads r.
+func (w *c09World) leaderStore(sn *c09Snap, r *router.Region) uint64 {
+	id := sn.leaderOf(r)
+	for _, p := range r.Meta.Peers {
+		if p.Id == id {
+			return p.StoreId
+		}
+	}
+	return 0
+}
+
 // randomChange tries kinds until one applies.
 func (w *c09World) randomChange(rng *rand.Rand) string {
 	weights := []int{30, 22, 14, 8, 8, 5, 6}
@@ -670,6 +728,7 @@ func (w *c09World) settle() {
 		w.cluster.StartStore(s)
 		delete(w.stopped, s)
 	}
+	w.settlePeersLocked()
 	w.snapshotLocked()
 	w.topoMu.Unlock()
 	w.mu.Lock()
@@ -696,6 +755,13 @@ func (w *c09World) newCache() {
 	}
 	w.staleServed.Store(0)
 	w.changes.Store(0)
+	w.topoMu.RLock()
+	w.deadBirth = map[uint64]bool{}
+	for s := range w.dead {
+		w.deadBirth[s] = true
+	}
+	w.topoMu.RUnlock()
+	w.peerUp.Range(func(k, _ any) bool { w.peerUp.Delete(k); return true })
 	w.mu.Lock()
 	w.seenVers = nil
 	w.mu.Unlock()
@@ -879,6 +945,7 @@ func (p *c09PD) deliver(what string, regs []*router.Region) []*router.Region {
 		out = append(out, c09CloneRegion(r))
 		ep := r.Meta.GetRegionEpoch()
 		ids = append(ids, NewRegionVerID(r.Meta.Id, ep.GetConfVer(), ep.GetVersion()))
+		w.notePDAnswer(r)
 	}
 	if w.concurrent.Load() {
 		// a delayed answer: topology changes may slip in before it is used
@@ -1063,6 +1130,9 @@ func (c *c09Client) SendRequest(ctx context.Context, addr string, req *tikvrpc.R
 					ep := m.GetRegionEpoch()
 					v := NewRegionVerID(m.Id, ep.GetConfVer(), ep.GetVersion())
 					delivered = append(delivered, v)
+					for _, p := range m.GetPeers() {
+						w.peerUp.Store(p.Id, true)
+					}
 					told += fmt.Sprintf("r%d@%d.%d ", v.GetID(), v.GetVer(), v.GetConfVer())
 					if m.Id == rctx.GetID() && v != rctx && ep.GetConfVer() >= rctx.GetConfVer() && ep.GetVersion() >= rctx.GetVer() {
 						refuted = true
@@ -1128,16 +1198,27 @@ type c09SendResult struct {
 	loops     int
 	rpcs      int64
 	lastRegEr string
+	panicked  bool // already reported as send:client-panic
 }
 
 // send mimics rawkv.Client.sendReq / the snapshot's point get: locate, send,
 // on a region error back off and start over.
-func (w *c09World) send(key []byte, budgetMs int) c09SendResult {
+func (w *c09World) send(key []byte, budgetMs int) (res c09SendResult) {
+	defer func() {
+		if p := recover(); p != nil {
+			buf := make([]byte, 5000)
+			buf = buf[:runtime.Stack(buf, false)]
+			w.r.Eval(1)
+			w.violate("send:client-panic", fmt.Sprintf("the request for key %s panicked inside the client instead of converging to the leader of its region: %v", c09K(key), p),
+				map[string]any{"key": c09K(key), "panic_value": fmt.Sprint(p), "stack": string(buf), "peer_health": w.healthStr()})
+			res.ok, res.err, res.panicked = false, fmt.Errorf("c09: client panicked: %v", p), true
+			res.rpcs = w.rpcInOp.Load()
+		}
+	}()
 	bo := w.bo(budgetMs)
 	// a RegionRequestSender carries per-request state: one per request, as the clients do
 	sender := NewRegionRequestSender(w.cache, w.cli, oracle.NoopReadTSValidator{})
 	w.rpcInOp.Store(0)
-	res := c09SendResult{}
 	if budgetMs == c09ConvergeBudgetMs && !w.concurrent.Load() {
 		w.mu.Lock()
 		w.enmSeen = map[RegionVerID]string{}
